@@ -761,7 +761,7 @@ class Interp:
                     cands += list(b.flat[:MAX_ALTS + 1])
                     if b.size > MAX_ALTS:
                         return Abs({kind_of(b.flat[0])}, base.deps | key.deps)
-            self.E("dyn-key", n, ast.unparse(n), keysets, sorted(kk), ast.unparse(sl), guards=g)
+            self.E("dyn-key", n, ast.unparse(n), keysets, sorted(kk), ast.unparse(sl), (lb_of(key), ub_of(key), tuple(sorted(value_deps(key)))), guards=g)
             if not cands:
                 self.E("param-missing", n, ast.unparse(n), f"<{'/'.join(sorted(kk))} key>", "no key of that kind", keysets, guards=g)
                 return Abs({"obj"}, base.deps | key.deps)
